@@ -243,6 +243,12 @@ func (f *Formatter) formatNode(n *html.Node, buf *strings.Builder, depth int) {
 		if n.Data == "pre" || n.Data == "textarea" {
 			buf.WriteString(indent)
 			buf.WriteString(f.renderOpenTag(n))
+			// An HTML parser drops one newline that directly follows the
+			// start tag of these elements: content that begins with a
+			// newline needs a second one to survive parsing.
+			if c := n.FirstChild; c != nil && c.Type == html.TextNode && strings.HasPrefix(c.Data, "\n") {
+				buf.WriteString("\n")
+			}
 			f.renderPreContent(n, buf)
 			buf.WriteString(f.renderCloseTag(n))
 			buf.WriteString("\n")
